@@ -62,7 +62,8 @@ function genLit(rng) {
     case 0: return [A("lit"), [A("b"), A(rng.chance(1, 2) ? "true" : "false")]];
     // (fractions that are not sums of few powers of two, a magnitude beyond 2^63, a negative fraction)
     case 1: case 2: return [A("lit"), [A("n"), rng.pick(["0", "1", "2", "12", "1.5", "0.1", "3.14159", "2.675", "-2.5", "1e+21"])]];
-    default: return [A("lit"), [A("s"), rng.pick(["a", "b", "c", "ab", "x", "toString"])]];
+    // (sometimes a string that spells a number or a boolean: `"1"` is not `1`, `"true"` is not `true`)
+    default: return [A("lit"), [A("s"), rng.chance(1, 5) ? rng.pick(["1", "2", "12", "1.5", "true", "false", "null"]) : rng.pick(["a", "b", "c", "ab", "x", "toString"])]];
   }
 }
 function genKey(rng) { return rng.chance(1, 12) ? rng.pick(ODD_KEYS) : rng.pick(KEYS); }
@@ -230,6 +231,16 @@ export function genProg(rng) {
       names.push({ name, params: ["T"] });
     }
   }
+  // a generic interface whose HERITAGE CLAUSE is generic in the interface's own parameter, reached from a generic alias under another
+  // argument (`interface Bq<T> { b: T }`, `interface Aq<T> extends Bq<T> { a: number }`, `type Wq<T> = { inner: Aq<T[]> }`)
+  if (rng.chance(1, 8)) {
+    const T = [A("ref"), "T"];
+    const wrap = (t) => rng.pick([[A("array"), t], [A("obj"), [["v", A("false"), t]], A("none")], [A("union"), t, A("null")]]);
+    decls.push([A("iface"), "Bq", ["T"], [], [["b", A("false"), T]]]);
+    decls.push([A("iface"), "Aq", ["T"], [[A("ref"), "Bq", rng.chance(1, 2) ? T : wrap(T)]], [["a", A("false"), A("number")]]]);
+    decls.push([A("alias"), "Wq", ["T"], [A("obj"), [["inner", A("false"), [A("ref"), "Aq", wrap(T)]], ["own", A("true"), T]], A("none")]]);
+    names.push({ name: "Bq", params: ["T"] }, { name: "Aq", params: ["T"] }, { name: "Wq", params: ["T"] }, { name: "Wq", params: ["T"] });
+  }
   // two declarations with the same body under different names (the code generator hoists equal constants: both names
   // then denote the SAME runtime object), used side by side in a third one
   if (decls.length && rng.chance(1, 8)) {
@@ -348,6 +359,12 @@ function mutate(rng, v) {
 export function genValues(rng, p, n) {
   const vals = [];
   for (const [, ty] of p[2]) for (let i = 0; i < n; i++) { const m = member(rng, p, ty, 2); vals.push(i % 3 === 2 ? mutate(rng, m) : i % 7 === 6 ? randomValue(rng, 2) : m); }
+  // the value a literal SPELLS, in the other kind (`1` next to `"1"`, `"true"` next to `true`), at the same place
+  const twin = (v) => (typeof v === "string" && v !== "" && !Number.isNaN(Number(v)) ? Number(v) : v === "true" ? true : v === "false" ? false : v === "null" ? null : typeof v === "number" || typeof v === "boolean" ? String(v) : undefined);
+  const twins = (v) => { const t = twin(v); if (t !== undefined) return t; if (Array.isArray(v)) { for (let i = 0; i < v.length; i++) { const t2 = twins(v[i]); if (t2 !== undefined) { const c = v.slice(); c[i] = t2; return c; } } }
+    else if (v && typeof v === "object" && Object.getPrototypeOf(v) === Object.prototype) { for (const k of Object.keys(v)) { const t2 = twins(v[k]); if (t2 !== undefined) { const c = {}; for (const k2 of Object.keys(v)) setOwn(c, k2, k2 === k ? t2 : v[k2]); return c; } } }
+    return undefined; };
+  for (const v of vals.slice(0, 6)) { const t = twins(v); if (t !== undefined) vals.push(t); }
   return vals;
 }
 // ---------- C08: meaning-preserving rewrites on TsCore programs ----------
@@ -424,11 +441,34 @@ function freshName(rng, p, prefix) {
 const REWRITES = ["perm-members", "perm-props", "perm-decls", "parens", "readonly", "regroup-union", "wrap-id", "intro-alias", "inline-alias", "rename", "iface-alias", "jsdoc"];
 // JSDoc in front of declarations and — half of the time — at token boundaries INSIDE types as well (before a union member, a
 // parenthesised group, a type argument, a property's type): a comment is a comment wherever it stands
+// index just after the template literal that starts at `i` (a backtick); `${ … }` holes may hold strings and templates again
+function skipTemplate(src, i) {
+  let j = i + 1;
+  while (j < src.length) {
+    if (src[j] === "\\") { j += 2; continue; }
+    if (src[j] === "`") return j + 1;
+    if (src[j] === "$" && src[j + 1] === "{") {
+      j += 2;
+      let depth = 1;
+      while (j < src.length && depth > 0) {
+        if (src[j] === "`") { j = skipTemplate(src, j); continue; }
+        if (src[j] === '"' || src[j] === "'") { const q = src[j]; j++; while (j < src.length && src[j] !== q) j += src[j] === "\\" ? 2 : 1; j++; continue; }
+        if (src[j] === "{") depth++;
+        if (src[j] === "}") depth--;
+        j++;
+      }
+      continue;
+    }
+    j++;
+  }
+  return j;
+}
 function jsdocInline(src, rng) {
   let out = "", i = 0, k = 0;
   while (i < src.length) {
     const c = src[i];
-    if (c === '"' || c === "'" || c === "`") { // skip a string / template literal
+    if (c === "`") { const e = skipTemplate(src, i); out += src.slice(i, e); i = e; continue; }
+    if (c === '"' || c === "'") { // skip a string literal
       let j = i + 1;
       while (j < src.length && src[j] !== c) j += src[j] === "\\" ? 2 : 1;
       out += src.slice(i, j + 1); i = j + 1; continue;
@@ -465,6 +505,19 @@ export function genRewrite(rng, params) {
     const tagQ = how === 0 ? mkU(tagsA.map((_, i) => [A("ref"), "Tg" + i])) : how === 1 ? mkU([[A("ref"), "Tg0"], ...tagsA.slice(1).map(L)]) : mkU([[A("ref"), "Round"], ...tagsA.slice(2).map(L)]);
     const q1 = [p[0], decls, [["EX", [A("union"), varA(tagQ), varB]]]];
     const vals = [...tagsA.map((t) => ({ [key]: t, r: 1 })), { [key]: tagB, side: 2 }, { [key]: tagsA[0], side: 2 }, { [key]: "zz", r: 1 }, { r: 1 }, { [key]: tagsA[1], r: "x" }, 1, null, "circle"];
+    return [A("rewrite"), A(String(counter++)), p1, [["entry.ts", tsOfProg(p1)]], vals.map(encVal), q1, [["entry.ts", tsOfProg(q1)]], [A("intro-alias")]];
+  }
+  if (rng.chance(1, 14)) {
+    // literals that SPELL a number or a boolean, inline next to `null` (a union of constants and a keyword) against the same
+    // literals behind an alias (a literal set of its own): `"1"` is not `1` in either form
+    const L = (v) => [A("lit"), [A("s"), v]];
+    const lits = rng.pick([["1", "2", "3"], ["true", "false"], ["1.5", "12"], ["null", "0"]]).map(L);
+    const other = rng.pick([A("null"), A("undefined"), A("boolean")]);
+    const wrap = rng.pick([(t) => t, (t) => [A("obj"), [["level", A("false"), t]], A("none")], (t) => [A("array"), t]]);
+    const p1 = [p[0], [], [["EX", wrap([A("union"), ...lits, other])]]];
+    const q1 = [p[0], [[A("alias"), "Level", [], [A("union"), ...lits]]], [["EX", wrap([A("union"), [A("ref"), "Level"], other])]]];
+    const raw = [1, 2, 3, "1", "2", true, false, "true", 1.5, "1.5", 12, 0, "0", null, "null", undefined];
+    const vals = raw.flatMap((v) => [v, { level: v }, [v]]);
     return [A("rewrite"), A(String(counter++)), p1, [["entry.ts", tsOfProg(p1)]], vals.map(encVal), q1, [["entry.ts", tsOfProg(q1)]], [A("intro-alias")]];
   }
   if (rng.chance(1, 12)) {
@@ -643,9 +696,12 @@ function defaultExprProject(rng) {
 }
 const SEM_EXPRS = ["Exclude<Rec | string, string>", "Exclude<Tp | string, string>", "Array<Tp>[number]", "Exclude<Rec | Tp, Tp>", "keyof Rec", "({ a: Rec } | { a: 1 })[\"a\"]", "Exclude<Rec2 | number, number>", "Exclude<Tp | Rec2 | null, null>", "Tp[1]", "Exclude<\"a\" | \"b\" | number, \"a\">",
   // named Map / Set / array aliases next to object types in one semantic context (each kind of atom has its own table)
-  "Exclude<Attrs | Lk, Attrs>", "Exclude<Lk | St | string, string>", "(Lk extends Attrs ? 1 : 2)", "Exclude<Attrs | St, St>", "Exclude<Rec | Lk, Rec>", "Exclude<Attrs | Rec2 | Lk | St, Lk>", "(Ar extends Tp ? \"y\" : \"n\")", "Exclude<Ar | Attrs | Lk, Ar>"];
+  "Exclude<Attrs | Lk, Attrs>", "Exclude<Lk | St | string, string>", "(Lk extends Attrs ? 1 : 2)", "Exclude<Attrs | St, St>", "Exclude<Rec | Lk, Rec>", "Exclude<Attrs | Rec2 | Lk | St, Lk>", "(Ar extends Tp ? \"y\" : \"n\")", "Exclude<Ar | Attrs | Lk, Ar>",
+  // named containers that contain THEMSELVES (a Set of groups, a Map to its own kind, an array of arrays): the conversion of the
+  // name to a semantic type meets the name again before it is done
+  "Exclude<Gs | string | null, null>", "Exclude<Gm | null, null>", "Exclude<Ga | number, number>", "(Gs extends St ? 1 : 2)", "Ga[number]", "Exclude<Gs | Gm | Ga, Gm>", "keyof { a: Gs; b: Gm }"];
 function semanticProject(rng) {
-  const decls = "type Rec = { next: Rec | null };\ntype Tp = [string, ...Tp[]];\ntype Rec2 = { v: number; kids?: Array<Rec2> };\ntype Attrs = { id: string };\ntype Lk = Map<string, number>;\ntype St = Set<string>;\ntype Ar = Array<string>;\n";
+  const decls = "type Rec = { next: Rec | null };\ntype Tp = [string, ...Tp[]];\ntype Rec2 = { v: number; kids?: Array<Rec2> };\ntype Attrs = { id: string };\ntype Lk = Map<string, number>;\ntype St = Set<string>;\ntype Ar = Array<string>;\ntype Gs = Set<Gs | string>;\ntype Gm = Map<string, Gm | number>;\ntype Ga = Array<Ga | string>;\n";
   const n = 2 + rng.below(3);
   const exps = Array.from({ length: n }, (_, i) => `E${i}: ${rng.pick(SEM_EXPRS)}`).join(", ");
   return [["entry.ts", decls + `parse.buildParsers<{ ${exps} }>();\n`]];
@@ -732,7 +788,7 @@ function oddProject(rng) {
         // the answer (which diagnostic, which helper numbers) must not depend on the order the keys are visited in
         ["type T = { [K in \"a\" | \"b\"]: K extends \"a\" ? symbol : Missing };", "type T = { [K in \"x\" | \"y\" | \"z\"]: K extends \"x\" ? Missing1 : K extends \"y\" ? symbol : Missing2 };",
          "type Tree = { a: Tree | null; b: Tree[] };\ntype T = { [K in \"a\" | \"b\"]: (Tree | { a: 1; b: 2 })[K] };", "type L = [string, ...L[]];\ntype T = { [K in \"p\" | \"q\" | \"r\"]: Exclude<L | K, K> };"],
-        ["type T = 1e999 | 2;", "type T = -1e999;", "type T = { k: 1e400 };", "const inf = 1e999;\ntype T = typeof inf;", "type T = `${1e999}`;"]]));
+        ["type T = `${\"\"}`;", "type T = { k: `${\"\"}${\"\"}` };", "type T = 1e999 | 2;", "type T = -1e999;", "type T = { k: 1e400 };", "const inf = 1e999;\ntype T = typeof inf;", "type T = `${1e999}`;"]]));
       return [["entry.ts", shape + "\nparse.buildParsers<{ E0: T }>();\n"]];
     }
     case 6: {
@@ -876,7 +932,9 @@ export function gen(rng, params, mode) {
       return v;
     };
     const vals = base.flatMap((v) => (rng.chance(1, 2) ? [v, extra(v, 0)] : [v]));
-    return [A("strict"), A(String(counter++)), p, [["entry.ts", tsOfProg(p)]], vals.map(encVal)];
+    // (sometimes with doc comments at token boundaries inside the types — in front of a member of an intersection, a property's
+    // type: a comment must not decide whether an intersection is merged into one object type)
+    return [A("strict"), A(String(counter++)), p, [["entry.ts", rng.chance(1, 3) ? jsdocInline(tsOfProg(p), rng) : tsOfProg(p)]], vals.map(encVal)];
   }
   if (mode === "prog-describe") {
     const p = genProg(rng);
@@ -962,6 +1020,7 @@ export function gen(rng, params, mode) {
       return r;
     }).join("\n");
   }
+  if (rng.chance(1, 6)) text = jsdocInline(text, rng);
   return [A("prog"), A(String(counter++)), p, [["entry.ts", text]], vals.map(encVal)];
 }
 // constant declarations `const Ck = { … } as const;` with spreads of earlier constants at any position
